@@ -332,7 +332,9 @@ def _run(case, work):
                 v.append(("success_but_tree_differs", "restore reported success; %s@%d is missing or differs from the archived tree" % (t, ts)))
         if fault == "none" or case["fault"] == "none":
             labels.add("no_fault_success")
-        elif fault in ("no_index", "missing_dir", "not_tar", "dup_row", "preexisting_dir", "parent_is_file", "truncate"):
+        elif fault in ("no_index", "missing_dir", "not_tar", "dup_row", "parent_is_file", "truncate"):
+            # (not "preexisting_dir": an UNRECORDED directory in the way is not one of the statement's reasons why a restore
+            # cannot complete - C11 wants such a restore to succeed; if it does, the checks above demand the archive's tree)
             v.append(("fault_but_success:" + fault, "restore reported success although the archive/destination has the fault %s" % fault))
     else:
         if not killed and res["status"] == 0:
